@@ -191,6 +191,21 @@ def cases():
         yield dict(name="range-var", d=u, u=u, expect=True, src=render({u: ["for k, v := range []int{1} {", "\tprint(k, v)", "}"]}))
         yield dict(name="range-var-after", d=u, u=u, expect=False, src=render({u: ["for k, v := range []int{1} {", "\tprint(k)", "}", "print(v)"]}))
         yield dict(name="global-use", d=-4, u=u, expect=True, src=render({u: ["print(g0)"]}))
+        # a variable does not exist before its definition is complete: the header expression of a loop and the value of a definition are
+        # outside the construct their variable belongs to (round 15: C07-H registered the index variable of a range loop before the range
+        # expression was parsed: `for i := range itoa(i + 100)` was accepted and read a stale shell variable)
+        yield dict(name="range-index-in-own-expression", d=u, u=u, expect=False, src=render({u: ["for k9 := range itoa(k9 + 100) {", "\tprint(k9)", "}"]}))
+        yield dict(name="range-index-in-own-expression-pair", d=u, u=u, expect=False, src=render({u: ["for k9, v9 := range \"ab\" + itoa(k9) {", "\tprint(k9, v9)", "}"]}))
+        yield dict(name="range-value-in-own-expression", d=u, u=u, expect=False, src=render({u: ["for k9, v9 := range []int{v9} {", "\tprint(k9, v9)", "}"]}))
+        yield dict(name="range-value-in-own-expression-string", d=u, u=u, expect=False, src=render({u: ["for k9, v9 := range \"ab\" + v9 {", "\tprint(k9, v9)", "}"]}))
+        yield dict(name="range-index-in-own-expression-after-loop", d=u, u=u, expect=False,
+                   src=render({u: ["for k9 := range \"ab\" {", "\tprint(k9)", "}", "for k9 := range itoa(k9 + 100) {", "\tprint(k9)", "}"]}))
+        yield dict(name="range-index-in-own-expression-len", d=u, u=u, expect=False, src=render({u: ["for k9 := range []int{1, 2, 3}[k9:] {", "\tprint(k9)", "}"]}))
+        yield dict(name="for-variable-in-own-initialiser", d=u, u=u, expect=False, src=render({u: ["for a9 := a9 + 1; a9 < 3; a9++ {", "\tprint(a9)", "}"]}))
+        yield dict(name="definition-in-own-value", d=u, u=u, expect=False, src=render({u: ["zz9 := zz9 + 1", "print(zz9)"]}))
+        yield dict(name="var-definition-in-own-value", d=u, u=u, expect=False, src=render({u: ["var zz9 int = zz9", "print(zz9)"]}))
+        yield dict(name="multi-definition-in-own-value", d=u, u=u, expect=False, src=render({u: ["yy9, zz9 := 1, yy9", "print(yy9, zz9)"]}))
+        yield dict(name="range-header-uses-outer-variable", d=u, u=u, expect=True, src=render({u: ["n9 := 2", "for k9 := range itoa(n9 + 100) {", "\tprint(k9)", "}"]}))
         yield dict(name="undefined", d=-5, u=u, expect=False, src=render({u: ["print(nope)"]}))
         yield dict(name="undefined-assign", d=-5, u=u, expect=False, src=render({u: ["nope = 1"]}))
         yield dict(name="undefined-call", d=-5, u=u, expect=False, src=render({u: ["nope()"]}))
